@@ -593,7 +593,7 @@ fn plan(corpus: &Corpus, thorough: bool, seed: u64, scale: f64) -> Vec<JobKind> 
         jobs.push(JobKind::Synth(rng.next()));
     }
     // fonts just below, at and above the size limit (parameters below SIZE_BAND.len() are reserved for them)
-    for k in 0..SIZE_BAND.len() {
+    for k in 0..SIZE_BAND.len() + FULL_TABLE.len() {
         jobs.push(JobKind::Synth(k as u64));
     }
     jobs
@@ -1270,9 +1270,42 @@ fn size_band_pl(n: usize) -> String {
     s
 }
 
+/// Lig/kern tables at the capacity of the format: `n` steps, every one of the 256 characters labelled at a
+/// location of its own beyond 255 (256 redirect words are prepended) and a LABEL BOUNDARYCHAR (one more word):
+/// with n = 32510 = i16::MAX - 257 the written table has exactly 32767 words.
+const FULL_TABLE: [usize; 4] = [32_500, 32_510, 32_511, 32_512];
+
+fn full_table_pl(n: usize) -> String {
+    let mut s = String::from("(BOUNDARYCHAR O 40)\n");
+    for c in 0..256 {
+        s.push_str(&format!("(CHARACTER O {:o} (CHARWD R 1.0))\n", c));
+    }
+    s.push_str("(LIGTABLE\n (LABEL BOUNDARYCHAR)\n");
+    let mut steps = 0usize;
+    for r in 0..300 {
+        s.push_str(&format!(" (KRN O {:o} R 0.{})\n", r % 256, 1 + r % 5));
+        steps += 1;
+    }
+    s.push_str(" (STOP)\n");
+    for c in 0..256 {
+        s.push_str(&format!(" (LABEL O {:o})\n (KRN O {:o} R 0.{})\n (STOP)\n", c, (c + 1) % 256, 1 + c % 5));
+        steps += 1;
+    }
+    s.push_str(" (LABEL O 0)\n");
+    while steps < n {
+        s.push_str(&format!(" (KRN O {:o} R 0.{})\n", steps % 256, 1 + steps % 5));
+        steps += 1;
+    }
+    s.push_str(" (STOP)\n )\n");
+    s
+}
+
 fn synth_pl(param: u64, deep: bool) -> String {
     if (param as usize) < SIZE_BAND.len() {
         return size_band_pl(SIZE_BAND[param as usize]);
+    }
+    if (param as usize) < SIZE_BAND.len() + FULL_TABLE.len() {
+        return full_table_pl(FULL_TABLE[param as usize - SIZE_BAND.len()]);
     }
     let mut rng = Rng::new(param);
     let mut s = String::new();
